@@ -547,6 +547,28 @@ def gen_digestable(ctx, rng):
             origin = g_origin(rng) if rng.random() < 0.6 else None
             fs, args = gen_rdata(rng, cls, ty, origin)
             yield "digestable", [2, cls, ty, fs, origin, args]
+    # expansions that do not fit in 255 octets (NameTooLong), and ones that just fit
+    for _ in range(ctx.n(40, 400)):
+        cls, ty = rng.choice(NAME_TYPES)
+        olen = rng.choice([100, 150, 200])
+        origin = [bytes([rng.choice(b"oO")]) * 49 for _ in range(olen // 50)] + [b""]
+        rel = [bytes([rng.choice(b"rR")]) * rng.choice([1, 4, 49, 49]) for _ in range(rng.choice([1, 2, 3, 3]))]
+        fs, args = gen_rdata(rng, cls, ty, origin)
+        k = 0
+        for i, f in enumerate(fs):
+            if isinstance(f, list):
+                fs[i] = rel
+                k += 1
+        if k != 1:
+            continue
+
+        def sub(a):
+            if isinstance(a, list) and a and a[0] == 0:
+                return [0] + rel
+            if isinstance(a, list) and a and a[0] == 1:
+                return [1] + [sub(x) for x in a[1:]]
+            return a
+        yield "digestable", [2, cls, ty, fs, origin, [sub(a) for a in args]]
     for cls, ty in PLAIN_TYPES:
         for _ in range(ctx.n(3, 40)):
             fs, args = gen_rdata(rng, cls, ty, None)
